@@ -183,6 +183,61 @@ func viaCLI(c *Case, nfiles int, exe, dir string, idx int) {
 	}
 }
 
+// matrixCases: the real `-matrix` path against the real `-f binary` output of the same configurations.
+// A module with files under build tags is linted with a three-line matrix; the runs are taken from
+// `-matrix -f binary` (decoded with decodeGob), the observations from `-matrix -f text` and `-f json`.
+func matrixCases(exe, work string) []Case {
+	root := filepath.Join(work, "mx")
+	hx.WriteFile(filepath.Join(root, "go.mod"), "module example.com/mx\n\ngo 1.22\n")
+	hx.WriteFile(filepath.Join(root, "common.go"), "package p\n\nfunc Common(x int) bool { return x == x }\n")
+	hx.WriteFile(filepath.Join(root, "foo.go"), "//go:build foo\n\npackage p\n\nfunc OnlyFoo(x int) bool {\n\thelper()\n\treturn x != x\n}\n")
+	hx.WriteFile(filepath.Join(root, "helper.go"), "package p\n\nfunc helper() {}\n")
+	hx.WriteFile(filepath.Join(root, "bar.go"), "//go:build bar\n\npackage p\n\nfunc unusedBar() {}\n")
+	hx.WriteFile(filepath.Join(root, "lonely.go"), "package p\n\nfunc lonely() {}\n")
+	matrix := "a: -tags=foo\nb: -tags=bar\nc:\n"
+	cache := filepath.Join(work, "mx-cache")
+	run := func(format string) []byte {
+		cmd := exec.Command(exe, "-matrix", "-f", format, "./...")
+		cmd.Dir = root
+		cmd.Env = append(hx.GoEnv(), "STATICCHECK_CACHE="+cache)
+		cmd.Stdin = strings.NewReader(matrix)
+		var stdout, stderr bytes.Buffer
+		cmd.Stdout, cmd.Stderr = &stdout, &stderr
+		err := cmd.Run()
+		if ee, ok := err.(*exec.ExitError); ok && ee.ExitCode() == 1 {
+			err = nil
+		}
+		if err != nil {
+			fatal(fmt.Errorf("staticcheck -matrix -f %s failed: %v: %s", format, err, stderr.String()))
+		}
+		return stdout.Bytes()
+	}
+	runs, err := lintcmd.VerifC12DecodeRuns(run("binary"))
+	if err != nil {
+		fatal(err)
+	}
+	rel := func(f string) string {
+		if filepath.IsAbs(f) {
+			if r, err := filepath.Rel(root, f); err == nil {
+				return filepath.ToSlash(r)
+			}
+		}
+		return f
+	}
+	c := Case{Kind: "matrix", Base: -1, Runs: runs, Note: "a: -tags=foo / b: -tags=bar / c:"}
+	if c.Text, err = parseText(run("text")); err != nil {
+		fatal(err)
+	}
+	if c.JSON, err = parseJSON(run("json")); err != nil {
+		fatal(err)
+	}
+	for i := range c.JSON {
+		c.JSON[i].File, c.JSON[i].EndFile = rel(c.JSON[i].File), rel(c.JSON[i].EndFile)
+	}
+	c.HasText, c.HasJSON = true, true
+	return []Case{c}
+}
+
 var (
 	files  = []string{"a.go", "b.go", "c/d.go", "e.go"}
 	msgs   = []string{"m0", "m1", "m2"}
@@ -361,6 +416,7 @@ func main() {
 	n := flag.Int("n", 1500, "number of random in-process cases")
 	ncli := flag.Int("cli", 30, "number of random cases through `staticcheck -merge`")
 	exe := flag.String("staticcheck", "", "staticcheck binary built from the tree under test (empty: no CLI cases)")
+	matrix := flag.Bool("matrix", true, "also lint a module with build tags with -matrix and compare with its -f binary runs")
 	pool := flag.String("pool", "", "only run the directed case with these comma-separated pool indices (replay)")
 	flag.Parse()
 	rnd := hx.NewRand(*seed)
@@ -440,6 +496,9 @@ func main() {
 		}
 		wg.Wait()
 		cases = append(cases, cli...)
+	}
+	if *exe != "" && *matrix {
+		cases = append(cases, matrixCases(*exe, *work)...)
 	}
 	hx.EmitJSON(*out, cases)
 }
